@@ -855,3 +855,18 @@ def _ctx_init(self):
     _old_ctx_init(self)
     self.solver.set("timeout", 5000)
 Ctx.__init__ = _ctx_init
+import numpy as _rnp
+int8 = _rnp.int8
+class _AnyDtype:
+    def __init__(self, n): self.name = n; self.kind = "O"
+_old_asarray4 = asarray
+def asarray(x, dtype=None):
+    if isinstance(x, record_scalar): 
+        x.dtype = _AnyDtype("record"); return x
+    if isinstance(x, (Sym,)) or (isinstance(x, (int, float, str, bool)) and dtype is None):
+        a = ndarray([x], (), None) if not isinstance(x, str) else None
+        if a is None:
+            class _S: dtype = _AnyDtype("str")
+            return _S()
+        return a
+    return _old_asarray4(x, dtype)
